@@ -1,22 +1,28 @@
 #!/bin/bash
 # Run once after a fresh restore, offline: builds the Lean modules and oracle executables named in
-# props/*.json and the Go harness binaries.  Nothing is fetched.
-set -e
+# props/*.json and the Go harness binaries.  Nothing is fetched.  A target that fails to build does
+# not stop the others: the check of the property it belongs to reports it.
 cd "$(dirname "$0")"
 export GOFLAGS=-mod=mod GOPROXY=off
 unset GOSUMDB GOTOOLCHAIN || true
 mkdir -p .work/bin evidence replays
-(cd go && go build -o ../.work/bin/extract ./cmd/extract && ../.work/bin/extract -repo /repo || true)
+(cd go && go build -o ../.work/bin/extract ./cmd/extract && ../.work/bin/extract -repo /repo) || echo "setup: extractor reported a problem"
 targets=$(python3 - <<'PY'
 import json,glob
 t=set()
 for f in glob.glob('props/C*.json'):
     c=json.load(open(f))
+    if not c.get('theorems'):
+        continue
     t.update(c.get('lean',[]))
     t.update('oracle_'+d['oracle'] for d in c.get('domains',[]) if d.get('oracle'))
 print(' '.join(sorted(t)))
 PY
 )
-(cd lean && lake build $targets)
-(cd go && for d in cmd/*/; do n=$(basename $d); [ "$n" = extract ] && continue; go build -tags verif -o ../.work/bin/$n ./cmd/$n || true; done)
+(cd lean && lake build $targets) || {
+  echo "setup: building all targets together failed; building them one by one"
+  for t in $targets; do (cd lean && lake build $t) || echo "setup: target $t failed to build"; done
+}
+(cd go && for d in cmd/*/; do n=$(basename $d); [ "$n" = extract ] && continue; go build -tags verif -o ../.work/bin/$n ./cmd/$n || echo "setup: go cmd $n failed to build"; done)
 echo setup done
+exit 0
